@@ -15,6 +15,8 @@ import (
 	"os"
 	"path/filepath"
 	"runtime"
+	"strings"
+	"sync/atomic"
 	"testing"
 
 	"github.com/massnetorg/mass-core/logging"
@@ -301,11 +303,63 @@ type zzOutcome struct {
 	OpsUsed   int
 }
 
-// session runs Plot() and interrupts it at the at-th disk operation from now (kind != none).
+// zzYieldEngine lets a stop request arrive at the n-th synchronisation point of the plotter
+// (channel checks, the writes of a flush) instead of at a disk operation: a request that comes in
+// between two disk operations - after the quit check of a window scan, before its flush - is
+// reachable only this way.
+type zzYieldEngine struct {
+	vsim.Plain
+	n, at int
+	fire  func()
+	sites map[string]int
+}
+
+func (e *zzYieldEngine) Yield(site string) {
+	e.n++
+	if e.sites != nil {
+		e.sites[site]++
+	}
+	if e.n == e.at && e.fire != nil {
+		f := e.fire
+		e.fire = nil
+		f()
+	}
+}
+
+// session runs Plot() and interrupts it at the at-th disk operation from now (kind != none);
+// a negative at means: a stop request at the (-at)-th synchronisation point of the plotter.
 func (p *zzPlot) session(at int, kind int) zzOutcome {
 	base := p.disk.NOps
 	var out zzOutcome
 	p.stopRes = nil
+	if at < 0 && kind == zzStop {
+		eng := &zzYieldEngine{at: -at, sites: map[string]int{}}
+		defer func() {
+			for s, n := range eng.sites {
+				sim.Cur.Count("sync-point:"+s[strings.LastIndex(s, "/")+1:], n)
+			}
+			sim.Cur.Count("sync-points-per-stopped-session", eng.n)
+		}()
+		eng.fire = func() {
+			mdb := p.mdb
+			if atomic.LoadInt32(&mdb.plotting) != 1 {
+				return // not plotting (yet, or any more): a stop request would be a no-op
+			}
+			out.Reached = true
+			p.stopRes = mdb.StopPlot()
+			for closed := false; !closed && atomic.LoadInt32(&mdb.plotting) == 2; {
+				select {
+				case <-mdb.stopPlotCh:
+					closed = true
+				default:
+					runtime.Gosched()
+				}
+			}
+		}
+		prev := vsim.E
+		vsim.E = eng
+		defer func() { vsim.E = prev }()
+	}
 	p.disk.Hook = func(op *vos.Op) vos.Action {
 		if kind == zzNoInterrupt || out.Reached || op.N != base+at {
 			return vos.None
@@ -517,6 +571,9 @@ func zzRunC10(r *sim.Run) {
 				span = 8
 			}
 			at = 1 + t.Choose("at", span)
+			if kind == zzStop && t.Bool("stop.at-sync-point", 1, 3) {
+				at = -(1 + t.Choose("at.sync", 40))
+			}
 		}
 		p.nWindows = 0
 		p.installWindows(false)
